@@ -68,6 +68,10 @@ def cmd_setup(args):
             continue
         ck = core.Check(f[:-3].upper(), "quick", 0)
         targets = getattr(mod, "LEAN_TARGETS", None)
+        if not targets:  # fall back: the property module plus every driver exe the check source mentions
+            import re
+            src = open(os.path.join(VERIF, "checks", f)).read()
+            targets = ["OmplModel.Props." + f[:-3].upper()] + sorted(set(re.findall(r"\bdrv_[a-z0-9_]+", src)))
         if targets:
             r = subprocess.run(["lake", "build"] + list(targets), cwd=core.LEAN)
             if r.returncode != 0:
